@@ -243,6 +243,27 @@ def run(ctx):
             judge(ctx, {"kind": "word", "basis": basis, "prog": prog, "scenario": si, "word": word}, prog, expected[si], out)
             events.append({"ev": "Run", "b": bi, "t": 0})
             events += [dict({"k": 0, "size": 0}, **e) for e in out["events"]]
+    # thorough tier: opcode granularity (f_trace_opcodes) for the first scenarios, strided preemption points
+    if not quick:
+        sch_op = sched.Scheduler(opcodes=True)
+        for si, (basis, prog) in enumerate(scen[:3]):
+            order = list(range(1, len(prog) + 1))
+
+            def fns_op(av):
+                return {t + 1: (lambda th=th: [real_call(av, c) for c in th]) for t, th in enumerate(prog)}
+            for first in order:
+                av = fresh(basis)
+                out = sch_op.run(av, fns_op(av), sched.preempt_policy(order, first, 10 ** 9))
+                n_op = out["steps"][first]
+                for j in sorted({int(x * n_op / 150) for x in range(150)} | {0, 1, 2, 3, n_op - 1}):
+                    av = fresh(basis)
+                    out = sch_op.run(av, fns_op(av), sched.preempt_policy(order, first, j))
+                    nruns += 1
+                    blocked_runs += 1 if out["saw_block"] else 0
+                    ctx.case(("sched-opcode", si, first, j), nontrivial=0 < j < n_op)
+                    judge(ctx, {"kind": "schedule", "basis": basis, "prog": prog, "scenario": si, "first": first, "j": j, "opcodes": True},
+                          prog, expected[si], out)
+        ctx.note("opcode_granularity", "first three scenarios, 150 preemption points per thread")
     if blocked_runs == 0:
         raise tlc.MachineryFailure("C07: no controlled run ever had a thread blocked on the lock (preemption never hit the critical section)")
     if behaviours_total and behaviours_followed == 0:
